@@ -324,18 +324,40 @@ def _run_build(cfg: TCfg, c: Ctx) -> Any:
     def thread_a() -> None:
         out["a"] = outcome(lambda: _snapshot(dag(describe_a)))
 
+    b_failed_before = bool(relation != "inherits-context" and c.choose(2, "b_failed_build_before"))
+
     def thread_b() -> None:
+        if b_failed_before:
+            # an earlier description in this thread failed (its describing function raised): nothing of it may linger
+            def broken(x):  # type: ignore[no-untyped-def]
+                xns["b0"](x)
+                raise RuntimeError("describing function failed")
+
+            broken.__qualname__ = broken.__name__ = "broken"
+            try:
+                dag(broken)
+            except RuntimeError:
+                pass
+        b_ready.set()
+        b_go.wait(20)
         out["b"] = outcome(do_op)
 
+    b_ready, b_go = threading.Event(), threading.Event()
+    if relation == "inherits-context":
+        b_go.set()
+    else:
+        # thread B exists before A starts to build (and may already have a failed description behind it)
+        tb = threading.Thread(target=thread_b, daemon=True, name="worker" if relation == "same-name" else "worker-b")
+        tb.start()
+        if not b_ready.wait(20):
+            raise E.HarnessError("thread B did not get ready")
     ta = threading.Thread(target=thread_a, daemon=True, name="worker")
     ta.start()
     if not paused.wait(20):
         raise E.HarnessError("builder thread did not reach its pause point")
     if relation == "inherits-context":
         tb = tb_box[0]
-    else:
-        tb = threading.Thread(target=thread_b, daemon=True, name="worker" if relation == "same-name" else "worker-b")
-        tb.start()
+    b_go.set()
     status = _wait_blocked_or_done(tb, ("threadsafe_make_dag",), lambda: "b" in out)
     resume.set()
     ta.join(20)
